@@ -54,6 +54,8 @@ class C11Machine(RecordingMixin, RuleBasedStateMachine):
     def __init__(self):
         super().__init__()
         self.init_recording()
+        import lightworks as lw
+        lw.settings.sampler_probability_threshold = 1e-9
         self.ready = False
         self.kinds_since_read = set()
         self.dist_read_since_change = True
@@ -273,6 +275,18 @@ class C11Machine(RecordingMixin, RuleBasedStateMachine):
         self.det = dict(cfg)
         self.changed("detector")
 
+    def do_detector_attr(self, attr, value):
+        setattr(self.sampler.detector, attr, value)
+        self.det = dict(self.det)
+        self.det[attr] = value
+        self.changed("detector-attribute")
+
+    def do_threshold(self, value):
+        import lightworks as lw
+        lw.settings.sampler_probability_threshold = value
+        if value != 1e-9:
+            self.info_labels.add("coarse-truncation-threshold")
+
     def do_quick_cfg(self, ps, pc):
         n = self.circ.input_modes
         if ps is not None:
@@ -287,6 +301,7 @@ class C11Machine(RecordingMixin, RuleBasedStateMachine):
         self.pc = pc
         self.quick.post_select = postsel.to_real(ps)
         self.quick.photon_counting = pc
+        self.analyzer.post_selection = postsel.to_real(ps)
         self.changed("post-selection/detector-mode")
 
     def do_quick_pc(self, pc):
@@ -355,7 +370,6 @@ class C11Machine(RecordingMixin, RuleBasedStateMachine):
         if sum(s2) == sum(self.state) and s2 != self.state:
             inputs.append(lw.State(s2))
         expected = {s: s for s in inputs} if use_expected else None
-        self.analyzer.post_selection = postsel.to_real(self.ps)
 
         def fresh():
             a = emulator.Analyzer(self.circ)
@@ -379,8 +393,10 @@ class C11Machine(RecordingMixin, RuleBasedStateMachine):
         self.info_labels.add("analyzed" + ("-expected" if use_expected else ""))
 
     # ---------------------------------------------------------------- rules
-    @initialize(prog=small)
-    def r_init(self, prog):
+    @initialize(prog=small, thr=st.sampled_from([1e-9, 1e-9, 1e-4, 1e-3]))
+    def r_init(self, prog, thr):
+        # the truncation threshold is a library setting: fixed for the whole history, before anything is computed
+        self.step("threshold", value=thr)
         self.step("init", prog=prog)
 
     @rule(prog=small, how=st.sampled_from(["random", "move", "photon", "add", "remove", "move", "photon"]),
@@ -421,6 +437,11 @@ class C11Machine(RecordingMixin, RuleBasedStateMachine):
     def r_detector(self, cfg):
         self.step("detector", cfg=cfg)
 
+    @rule(attr=st.sampled_from(["efficiency", "p_dark", "photon_counting"]), k=st.integers(0, 2))
+    def r_detector_attr(self, attr, k):
+        value = {"efficiency": [1, 0.6, 0.9], "p_dark": [0, 0.1, 0.3], "photon_counting": [True, False, False]}[attr][k]
+        self.step("detector_attr", attr=attr, value=value)
+
     @rule(ps=postsel.post_selection(3, 2), pc=st.booleans())
     def r_quick_cfg(self, ps, pc):
         self.step("quick_cfg", ps=ps, pc=pc)
@@ -450,6 +471,17 @@ class C11Machine(RecordingMixin, RuleBasedStateMachine):
             cfg = dict(self.src)
             cfg[attr] = (1e-3 if self.src[attr] == 0 else 0) if attr == "probability_threshold" else value
             self.step("source", cfg=cfg, inplace=bool(seed % 2), attr=attr)
+        self.step("sample", which="N_inputs", seed=seed, n=20)
+        self.step("read", which="sampler")
+
+    @rule(useed=st.integers(0, 10 ** 6), seed=st.integers(0, 2 ** 20), m=st.integers(4, 6))
+    def r_dense_sample_then_read(self, useed, seed, m):
+        """dense interferometer (many small probabilities), sample first, read the distribution afterwards"""
+        if not self.ready:
+            return
+        self.step("assign_circuit", prog={"n": m, "ops": [["unitary", 0, "haar", m, useed]]}, how="random",
+                  a=0, b=0, n=0)
+        self.step("input", occ=[1, 1, 1])
         self.step("sample", which="N_inputs", seed=seed, n=20)
         self.step("read", which="sampler")
 
@@ -501,6 +533,8 @@ class C11Machine(RecordingMixin, RuleBasedStateMachine):
         self.step("analyze", use_expected=use_expected, occ2=occ2)
 
     def teardown(self):
+        import lightworks as lw
+        lw.settings.sampler_probability_threshold = 1e-9
         self.finish()
 
 
